@@ -77,3 +77,37 @@ def counters(payload):
                     return {"status": "fail", "cases": cases, "detail": f"{kind}: training did not stop in the first generation meeting the budget: steps history {a.steps}, max_steps {mx}"}
             env.close()
     return {"status": "pass", "cases": cases}
+
+
+def bandits(payload):
+    """train_bandits end to end with the library's own BanditEnv: runs to completion, what is stored is the chosen arm's context."""
+    import warnings
+    import numpy as np
+    import pandas as pd
+    from gymnasium import spaces
+    from agilerl.algorithms.neural_ts_bandit import NeuralTS
+    from agilerl.algorithms.neural_ucb_bandit import NeuralUCB
+    from agilerl.components.replay_buffer import ReplayBuffer
+    from agilerl.training.train_bandits import train_bandits
+    from agilerl.wrappers.learning import BanditEnv
+    warnings.simplefilter("ignore")
+    cases = 0
+    for cls in (NeuralUCB, NeuralTS):
+        rng = np.random.default_rng(payload.get("seed", 0))
+        env = BanditEnv(pd.DataFrame(rng.normal(size=(50, 4))), pd.DataFrame(rng.integers(0, 3, size=50)))
+        agent = cls(spaces.Box(-np.inf, np.inf, env.context_dim), spaces.Discrete(env.arms), batch_size=4, learn_step=1)
+        mem = ReplayBuffer(100)
+        cases += 1
+        try:
+            pop, _ = train_bandits(env, "x", cls.__name__, [agent], mem, max_steps=20, episode_steps=10, evo_steps=10, eval_steps=5, eval_loop=1, verbose=False)
+        except RuntimeError as e:
+            return {"status": "fail", "cases": cases, "witness_key": "bandit-stored-context",
+                    "detail": f"train_bandits({cls.__name__}, BanditEnv) raised RuntimeError at the first learn(): {str(e)[:160]}; stored obs per transition "
+                              f"{tuple(mem.storage['obs'].shape[1:])} {mem.storage['obs'].dtype}, chosen arm's context {tuple(env.context_dim)}", "input": {"algo": cls.__name__}}
+        shape = tuple(mem.storage["obs"].shape[1:])
+        if shape != tuple(env.context_dim):
+            return {"status": "fail", "cases": cases, "witness_key": "bandit-stored-context",
+                    "detail": f"{cls.__name__}: stored obs per transition has shape {shape}; the chosen arm's context has shape {tuple(env.context_dim)}", "input": {"algo": cls.__name__}}
+        if pop[0].steps[-1] != 20:
+            return {"status": "fail", "cases": cases, "detail": f"{cls.__name__}: steps counter {pop[0].steps[-1]} after 2 x 10 environment steps"}
+    return {"status": "pass", "cases": cases}
